@@ -239,15 +239,22 @@ nni_listener_init(nni_listener *l, nni_sock *s, nni_sp_tran *tran)
 
 	rv = l->l_ops.l_init(lp, &l->l_url, l);
 
+	// The identifier is allocated before the socket learns about us:
+	// a socket that is shutting down closes every endpoint on its list,
+	// and close must find the identifier in the map to remove it.
 	if (rv == 0) {
-		rv = nni_sock_add_listener(s, l);
+		nni_mtx_lock(&listeners_lk);
+		rv = nni_id_alloc32(&listeners, &l->l_id, l);
+		nni_mtx_unlock(&listeners_lk);
 	}
 
 	if (rv == 0) {
 		NNI_VERIF_DELAY(2, l);
-		nni_mtx_lock(&listeners_lk);
-		rv = nni_id_alloc32(&listeners, &l->l_id, l);
-		nni_mtx_unlock(&listeners_lk);
+		if ((rv = nni_sock_add_listener(s, l)) != 0) {
+			nni_mtx_lock(&listeners_lk);
+			nni_id_remove(&listeners, l->l_id);
+			nni_mtx_unlock(&listeners_lk);
+		}
 	}
 
 	if (rv == 0) {
